@@ -962,3 +962,122 @@ def run(ctx):
 
 # evidence: how the model is tied to the source on every run (as built, supersedes the value above)
 TIE = 'translator through Props/C01Gen (the model of the laws is the regenerated loop) + correspondence (small exhaustive space through the Float twin) + relations evaluated impl-vs-impl'
+
+
+# ---- extras3 (hx_r7a, round 7): silent lead-ins whose length sits on a multiple of (new integer constant // number of periods) ---------------------
+#
+# A change that processes the record in blocks / skips a silent lead-in blockwise introduces an integer constant c and is wrong only when the
+# number of leading zeros L of the record is related to c AND to the length of the period list (L == m * (c // n_periods)).  No fixed set of
+# shifts can cover that, the source hints can: for every constant c the new literals can form (gen.hint_consts: `2 ** 16` arrives as 2 and 16)
+# and n_p in {64, 8, 3, 2, 1} periods (with and without a leading 0), records whose first non-zero sample is at L in {q-1, q, q+1, q+2, 2q},
+# q = c // n_p, evaluated by the EXISTING oracles: zero-prefix shift (==), linearity with an early blip (the silent stretch then lies INSIDE
+# the record and ends on the block boundary), causality at the split points around L.  Costs nothing without hints (no constants -> no cases).
+
+def extras3(ctx, im):
+    consts = gen.hint_consts(ctx, lo=4, hi=2 ** 21, cap=8)
+    if not consts:
+        return
+    rng = ctx.rng
+    budget = [2500000]          # total number of recurrence steps spent here (~16 us each)
+
+    def run_(rec, dt, periods, xi):
+        budget[0] -= len(rec)
+        return im.resp(rec, dt, periods, xi)
+
+    sh_clause = 'C02.c shift: prepending zeros to a record starting at 0 delays the response by as many samples (==)'
+    for c in consts:                                 # the new literals first, then what two of them can form (gen.hint_consts)
+        for n_p in (64, 8, 3, 2, 1):                 # cheap period counts first: the budget can only drop the most expensive cases
+            q = c // n_p
+            if q < 2 or q * n_p > 200000:
+                continue
+            n = rng.randint(24, 90)
+            dt = rng.choice([0.01, 0.005, 0.02])
+            kind = rng.choice(['noise', 'sine', 'int', 'hat'])
+            a = (gen.noise_record(rng, n) if kind == 'noise' else gen.sine_record(rng, n, dt) if kind == 'sine' else gen.int_record(rng, n) if kind == 'int'
+                 else np.zeros(n))
+            a[0] = 0.0
+            if abs(a[1]) < 0.25:
+                a[1] = rng.choice([-1.0, 1.0, 0.5, 2.0])         # the first non-zero sample is sample 1 and is not negligible
+            body = sorted(dt * math.exp(rng.uniform(math.log(3), math.log(400))) for _ in range(n_p))
+            xi = rng.choice([0.0, 0.02, 0.05, 0.3])
+            base_inp = {'acc': a, 'dt': dt, 'xi': xi, 'hinted_constant': c, 'n_periods': n_p, 'constant // n_periods': q}
+            # period lists: n_p non-zero periods; the same behind a leading 0; a list of n_p entries INCLUDING the leading 0
+            plists = [('plain', body)]
+            if n_p >= 2:
+                plists += [('leading 0 + n_p periods', [0.0] + body), ('leading 0 + (n_p - 1) periods', [0.0] + body[:-1])]
+            else:
+                plists += [('leading 0 + n_p periods', [0.0] + body)]
+            for li, (plab, periods) in enumerate(plists):
+                Ls = [L for L in (q, q - 1, q + 1, q + 2, 2 * q) if L >= 1 and L * n_p <= 200000] if li == 0 else [q]
+                if budget[0] < sum(Ls) + len(Ls) * n:
+                    ctx.hist('hinted lead-in/skipped (budget)')
+                    continue
+                base = im.resp(a, dt, periods, xi)
+                if base is None:
+                    continue
+                P = len(periods)
+                inp = {**base_inp, 'periods': periods}
+                ctx.hist(f'hinted lead-in/c={c} n_p={n_p} {plab}')
+                ctx.count_case(('x3-leadin', c, n_p, plab, a.tobytes(), dt, tuple(periods), xi), True,
+                               sample={'fn': 'silent lead-in of hinted length', **{k_: v_ for k_, v_ in inp.items() if k_ != 'acc'}} if n_p == 64 and li == 0 else None)
+                bad = None
+                at_q = None
+                for L in Ls:
+                    kk = L - 1                                  # a[0] == 0 is the L-th leading zero: the first non-zero sample has index L
+                    rec = np.concatenate([np.zeros(kk), a])
+                    r = run_(rec, dt, periods, xi)
+                    if L == q:
+                        at_q = (rec, r)
+                    if r is None or not all(x.shape == (P, n + kk) and np.all(x[:, :kk] == 0) and np.array_equal(x[:, kk:], y) for x, y in zip(r, base)):
+                        bad = kk if bad is None else bad
+                ctx.oracle(sh_clause, bad is None, {**inp, 'k': bad, 'index_of_first_nonzero_sample': None if bad is None else bad + 1})
+                if li != 0 or at_q is None or at_q[1] is None:
+                    continue
+                # the silent stretch INSIDE the record: an early blip b, then zeros up to the block boundary, then the record
+                rec, ra = at_q
+                N = len(rec)
+                if budget[0] < 5 * N:
+                    ctx.hist('hinted lead-in/skipped (budget)')
+                    continue
+                b = np.zeros(N)
+                for j in range(rng.randint(1, 4)):
+                    b[rng.randint(0, 6)] = rng.choice([-1.0, 0.5, 1e-3, 2.0])
+                if not b.any():
+                    b[2] = 1.0
+                alpha, beta = rng.choice([1.0, -2.0, 0.5]), rng.choice([1.0, 3.0, -0.25])
+                rb = run_(b, dt, periods, xi)
+                rc = run_(alpha * rec + beta * b, dt, periods, xi)
+                if rb is not None and rc is not None:
+                    worst, where = 0.0, None
+                    amax = max(abs(alpha) * peak(rec), abs(beta) * peak(b))
+                    for name, x, y, z in zip('uva', rc, ra, rb):
+                        for j in range(P):
+                            sc = max(abs(alpha) * peak(y[j]), abs(beta) * peak(z[j]), FLOOR * nat(amax, dt, periods[j])['uva'.index(name)], 1e-300)
+                            e = peak(x[j] - (alpha * y[j] + beta * z[j])) / sc
+                            if e > worst:
+                                worst, where = e, (name, j)
+                    ctx.gap('linearity(impl vs impl, hinted lead-in)', worst)
+                    ctx.oracle('C02.a linearity: response(alpha a + beta b) == alpha response(a) + beta response(b) (1e-10 of the peak)', worst <= 1e-10,
+                               {**inp, 'a': f'{q - 1} zeros followed by acc', 'b': f'{N} samples, zero except b[:7] = {b[:7].tolist()}', 'alpha': alpha, 'beta': beta},
+                               detail={'err': worst, 'series,row': where})
+                    # causality around the boundary, on the combined record
+                    comb = alpha * rec + beta * b
+                    badc = None
+                    for s in (q - 1, q, q + 1):
+                        if not 0 <= s < N:
+                            continue
+                        part = run_(comb[:s + 1].copy(), dt, periods, xi)
+                        if part is None or not all(y.shape == (P, s + 1) and np.array_equal(x[:, :s + 1], y) for x, y in zip(rc, part)):
+                            badc = s
+                            break
+                    ctx.oracle('C02.b causality: response of a[:i+1] == first i+1 samples of the response of a (all split points, ==)', badc is None,
+                               {**inp, 'acc': f'{alpha} * ({q - 1} zeros followed by acc) + {beta} * (b[:7] = {b[:7].tolist()}, zero afterwards)', 'acc_tail': a, 'split_index': badc})
+
+
+_run_main3 = run
+
+
+def run(ctx):
+    _run_main3(ctx)
+    extras3(ctx, Impl(ctx))
+    ctx.flush()
